@@ -7,7 +7,7 @@ import types
 
 from .. import model as M
 from .. import shim, core
-from .. import gen_cells, gen_univ, gen_lat, gen_hostile
+from .. import gen_cells, gen_univ, gen_lat, gen_hostile, gen_mix
 from . import c04, c08, c10, c17
 
 ID = 'C18'
@@ -157,6 +157,7 @@ def draw_decks(case):
         lambda: gen_lat.build_rect(rng, rng.choice(gen_lat.RECT_FAMILIES)),
         lambda: gen_lat.build_hex(rng, rng.choice(gen_lat.HEX_FAMILIES)),
         lambda: gen_hostile.build(rng, rng.choice(gen_hostile.FAMILIES)),
+        lambda: gen_mix.build(rng, rng.choice(gen_mix.FAMILIES)),
         lambda: c04.build(_Sub(rng, f'{rng.choice(c04.ATTACH)}|generic',
                                case.index, case.tier, case.seed)),
         lambda: c10.build(_Sub(rng, rng.choice(c10.FAMILIES[:-1]), case.index,
